@@ -65,20 +65,6 @@ def call_rules(run, r_call, r_final, u):
                 hb = [h.bb for h in handler]
                 ok = any(reach(ne_edge, h) for h in hb)
                 why = "the 'different' outcome does not lead to the error handler"
-                if ok:
-                    # ... on EVERY path: no return is reachable from the 'different' edge without passing the handler call
-                    rets = {i.bb for i in f.all_insts() if i.op == "ret"}
-
-                    def escapes(b, seen):
-                        if b in hb or b in seen:
-                            return False
-                        seen.add(b)
-                        if b in rets:
-                            return True
-                        return any(escapes(s2, seen) for s2 in f.succ(b))
-                    if escapes(ne_edge, set()):
-                        ok = False
-                        why = "with dynamic id != static id a path returns a pointer without reporting the method_table_error (the report depends on a further condition)"
                 # error.type = dynamic id
                 lo = mod.layout_by_name.get("yorel::yomm2::method_table_error")
                 if ok and lo:
@@ -101,6 +87,93 @@ def call_rules(run, r_call, r_final, u):
                 run.violation(r_final, "virtual_ptr::final|checked-id", "%s validates %s with the checked hash: an object of another (unregistered) dynamic class is reported as unknown class instead of as a method-table error" % (short, sym.show(v)[:100] if v else "?"), i.where())
 
 
+def final_report_rule(run, rule):
+    """final under a checked policy: when the object's class differs from the static class, EVERY path reports the method-table error
+    (handler call, then abort) before it returns - and when the class is the same, none does. 'Differs' is decided over the two
+    tests the code may make: the raw ids differ, and (if the code consults it) Policy::type_index of the two ids differs; any other
+    condition between the test and the report is left open (both outcomes explored), so a report that depends on it is flagged."""
+    src, _ = callpath.unit_source("debug", ["r", "V", "X"])
+    ast = astq.Ast(common.ast_json(run, src, "c15_final", ndebug=False, funcs="virtual_ptr<"))
+    n = 0
+    for f in ast.funcs:
+        if not f.get("body") or not re.search(r"virtual_ptr<.*>::final<", f["name"]):
+            continue
+        dyn, stat = set(), set()
+        for x in astq.walk(f["body"]):
+            if x.get("k") == "DeclStmt":
+                for d in x["decls"]:
+                    if d.get("init") is None:
+                        continue
+                    cs = [(y.get("callee") or "") for y in astq.walk(d["init"]) if y.get("k") in ("CallExpr", "CXXMemberCallExpr")]
+                    if any("::dynamic_type<" in c for c in cs):
+                        dyn.add(d["did"])
+                    elif any("::static_type<" in c for c in cs):
+                        stat.add(d["did"])
+        if not dyn or not stat:
+            continue
+        n += 1
+
+        def operand(e):
+            """'d' / 's' for the raw ids, 'D' / 'S' for Policy::type_index(id)"""
+            e = astq.strip(e)
+            while e is not None and e.get("k") in ("CXXConstructExpr", "MaterializeTemporaryExpr", "CXXBindTemporaryExpr") and len(e.get("c") or []) == 1:
+                e = astq.strip(e["c"][0])
+            if e is None:
+                return None
+            if e.get("k") == "DeclRefExpr":
+                return "d" if e["ref"]["did"] in dyn else "s" if e["ref"]["did"] in stat else None
+            if e.get("k") in ("CallExpr", "CXXMemberCallExpr") and (e.get("callee") or "").endswith("::type_index") and len(e.get("c") or []) >= 2:
+                o = operand(e["c"][-1])
+                return o.upper() if o in ("d", "s") else None
+            return None
+
+        def mk_decide(differ):
+            def decide(c):
+                c = astq.strip(c)
+                if c is None:
+                    return None
+                if c.get("k") == "UnaryOperator" and c.get("op") == "!":
+                    v = decide(c["c"][0])
+                    return None if v is None else not v
+                if c.get("k") == "BinaryOperator" and c.get("op") in ("&&", "||"):
+                    a, b = decide(c["c"][0]), decide(c["c"][1])
+                    if c["op"] == "&&":
+                        return False if (a is False or b is False) else True if (a and b) else None
+                    return True if (a is True or b is True) else False if (a is False and b is False) else None
+                op, l, r = None, None, None
+                if c.get("k") == "BinaryOperator" and c.get("op") in ("==", "!="):
+                    op, l, r = c["op"], operand(c["c"][0]), operand(c["c"][1])
+                elif c.get("k") == "CXXOperatorCallExpr" and c.get("oop") in ("==", "!=") and len(c.get("c") or []) >= 3:
+                    op, l, r = c["oop"], operand(c["c"][1]), operand(c["c"][2])
+                if op and l and r and {l, r} == {"d", "s"}:
+                    # raw ids: equal ids mean the same class; different ids say nothing when classes may have several ids - but the
+                    # scenario under test fixes it: class differs => ids differ; same class with ANOTHER id => ids differ too
+                    return (op == "!=")
+                if op and l and r and {l, r} == {"D", "S"}:
+                    return (op == "!=") == differ
+                return None
+            return decide
+
+        def is_report(x):
+            return x.get("k") in ("CallExpr", "CXXMemberCallExpr", "CXXOperatorCallExpr") and re.search(r"::error$|vectored_error<.*>::error|operator\(\)", x.get("callee") or "") is not None and any(
+                "method_table_error" in (y.get("t") or "") for y in astq.walk(x))
+        for differ in (True, False):
+            paths = astq.enum_paths(f["body"], mk_decide(differ), lambda x: any(is_report(y) for y in astq.walk(x)))
+            uses_index = any((y.get("callee") or "").endswith("::type_index") for y in astq.walk(f["body"]) if y.get("k") in ("CallExpr", "CXXMemberCallExpr"))
+            if not differ and not uses_index:
+                continue          # the code only knows raw ids: 'same class, other id' is the recorded finding of C10, not decided here
+            silent = [p for p in paths if not p["events"] and not p.get("noreturn")]
+            loud = [p for p in paths if p["events"]]
+            ok = (not silent) if differ else (not loud)
+            what = "an object of another class is reported as a method-table error on every path" if differ else "an object of the same class (whatever id it carries) is not reported"
+            run.instance(rule, "%s: %s" % (crules.short(f)[:90], what), (f["file"], f["line"]), ok=ok)
+            if not ok:
+                g = [astq.text(c)[:60] for c, v in (silent if differ else loud)[0]["guards"]]
+                run.violation(rule, "virtual_ptr::final|type-check", "%s: %s - depending on `%s`" % (crules.short(f)[:90], "with an object of ANOTHER class a path returns a pointer without reporting the method_table_error" if differ else "an object of the SAME class is reported as a method-table error", "; ".join(g) or "?"), (f["file"], f["line"]))
+    if n == 0:
+        run.broken.append("C15-final: no instantiation of virtual_ptr::final with its type check found in the AST unit")
+
+
 def check(run):
     r1, r2, r3 = "C15-update", "C15-call", "C15-final"
     run.rule(r1, "update-time class_map look-ups: run for every record, null-tested first, null -> unknown_class_error(looked-up id) + handler + abort", floor=9)
@@ -108,6 +181,7 @@ def check(run):
     run.rule(r3, "final: dynamic != static type -> method_table_error carrying the dynamic id", floor=6)
     r4 = "C15-abort"
     run.rule(r4, "after the report of an unknown class / wrong final type no path continues to a table read: abort() follows the handler call", floor=6)
+    final_report_rule(run, r3)
     for nd in ([True] if run.tier == "quick" else [True, False]):
         ast, _ = crules.unit(run, ndebug=nd)
         crules.lookup_rules(run, None, r1, ast)
